@@ -213,6 +213,23 @@ func init() {
 		st.expectPanic = e.argString(st, a[0], "vExpectPanic")
 		return nil
 	}
+	h["vNative"] = func(e *Engine, st *State, a []Value, in ssa.Instruction) Value { return e.ts.False }
+	h["vThreadBegin"] = func(e *Engine, st *State, a []Value, in ssa.Instruction) Value {
+		if st.thread == 0 && st.accesses == nil {
+			st.sharedMax = e.objSeq
+		}
+		st.thread = e.argInt(a[0], "vThreadBegin") + 1
+		return nil
+	}
+	h["vThreadEnd"] = func(e *Engine, st *State, a []Value, in ssa.Instruction) Value {
+		st.thread = 0
+		return nil
+	}
+	h["vRaceCheck"] = func(e *Engine, st *State, a []Value, in ssa.Instruction) Value {
+		e.raceCheck(st, in)
+		st.accesses = nil
+		return nil
+	}
 	h["vTier"] = func(e *Engine, st *State, a []Value, in ssa.Instruction) Value {
 		return e.c64(int64(e.h.tier))
 	}
@@ -496,7 +513,10 @@ func (e *Engine) lockOp(st *State, recv Value, delta int, in ssa.Instruction) Va
 		return nil
 	}
 	// identify the mutex by (object, concrete offset); symbolic offsets are not expected
-	key := p.obj
+	if !p.off.IsConst() {
+		panic(encErr("mutex at symbolic offset"))
+	}
+	key := lockKey{p.obj, p.off.ConstU()}
 	cur := st.locks[key]
 	nv := cur + delta
 	if delta == 1 && cur != 0 {
@@ -527,3 +547,53 @@ func (e *Engine) indexByte(st *State, s Value, c *Term) Value {
 }
 
 var _ = big.NewInt
+
+// raceCheck looks for two recorded accesses of different threads to overlapping cells of one
+// object, at least one of them a write, with no lock in common; the overlap of symbolic
+// offsets is decided by the solver.
+func (e *Engine) raceCheck(st *State, in ssa.Instruction) {
+	byObj := map[*Object][]*access{}
+	for a := st.accesses; a != nil; a = a.prev {
+		byObj[a.obj] = append(byObj[a.obj], a)
+	}
+	e.h.asserts["no-data-race"]++
+	reported := map[string]bool{}
+	for o, as := range byObj {
+		for i := 0; i < len(as); i++ {
+			for j := i + 1; j < len(as); j++ {
+				x, y := as[i], as[j]
+				if x.thread == y.thread || (!x.write && !y.write) {
+					continue
+				}
+				if x.locks != "" && x.locks == y.locks {
+					continue // same lock set held (coarse: identical sets)
+				}
+				key := fmt.Sprint(o.id)
+				if reported[key] {
+					continue
+				}
+				ts := e.ts
+				xe := ts.Add(x.off, e.c64(int64(x.n-1)))
+				ye := ts.Add(y.off, e.c64(int64(y.n-1)))
+				overlap := ts.And(ts.Ule(x.off, ye), ts.Ule(y.off, xe))
+				sat, model, certain := e.feasible(st, overlap)
+				if !sat {
+					continue
+				}
+				if !certain {
+					e.h.inconclusive = append(e.h.inconclusive, "race overlap undecided on "+o.name)
+					continue
+				}
+				reported[key] = true
+				kind := "write/write"
+				if !x.write || !y.write {
+					kind = "read/write"
+				}
+				fl := &Failure{kind: "race", name: "data race on " + o.name, msg: fmt.Sprintf("%s race on %s between thread %d at %s and thread %d at %s", kind, o.name, y.thread, y.pos, x.thread, x.pos), pos: x.pos}
+				e.fillStack(st, fl)
+				fl.fn = o.name
+				e.recordViolation(st, fl, model)
+			}
+		}
+	}
+}
